@@ -254,7 +254,15 @@ def r19e(P, R):
             "emit_js does not start from the task's own root document/path", loc=e.loc())
 
 
-RULES = [("R19-a", r19a), ("R19-b", r19b), ("R19-c", r19c), ("R19-d", r19d), ("R19-e", r19e)]
+def r19pc(P, R):
+    from facts import Program
+    SC = Program(harness.selfcheck_facts())
+    us = [(f.name, cs) for f, n, cs, d in user_unsafe(SC)]
+    ok = len(us) == 1 and us[0][0] == "rebuild" and any("from_raw_parts" in c for c in us[0][1])
+    R.check("R19-pc", "control:unsafe", ok, "unsafe-block control detected", "self-check: the unsafe inventory sees %s in the control crate" % us)
+
+
+RULES = [("R19-pc", r19pc), ("R19-a", r19a), ("R19-b", r19b), ("R19-c", r19c), ("R19-d", r19d), ("R19-e", r19e)]
 EXPLANATION = (
     "Ownership and totality clauses of the loader, for every call history: (R19-a) the user-written unsafe blocks of the workspace "
     "are exactly the listed ones, each with its ownership argument; (R19-b) source_drop_list is pushed once per registration with "
